@@ -275,7 +275,7 @@ def r4_required_reaches_graph(chk: Check):
     def guarded(n, kind):
         return any(t.kind == "test" and src(t.ast) in (f"isinstance({hp}, {kind})",) and pol is True for t, pol in gh.guards(n))
 
-    cfgcalls = [n for n, c in gh.call_nodes(lambda c: src(c) == f"{hp}.__xpm__.validate()") if guarded(n, "Config")]
+    cfgcalls = [n for n, c in gh.call_nodes(lambda c: src(c.func) == f"{hp}.__xpm__.validate") if guarded(n, "Config")]
     chk.require(bool(cfgcalls), chk.fkey(helper, "Config"), "nested configurations are not validated", hloc)
     for n in cfgcalls:
         cb = [b for b in gh.live if b.kind == "branch" and b.extra["test"].kind == "test" and src(b.extra["test"].ast) == f"isinstance({hp}, Config)" and b.extra["polarity"] is True]
@@ -340,8 +340,12 @@ def r4_required_reaches_graph(chk: Check):
             want_end = "raise" if none and req and not gen else "next"
             want_walk = not none
             for o in outs:
-                unk = [u[0] for u in o.unknown if u[2] is None]
-                if o.end != want_end or ("walk" in o.events) != want_walk or unk:
+                # a condition outside the table is harmless when both of its outcomes end the same way (explored both ways, e.g. the
+                # bookkeeping of an exception handler that re-raises)
+                unk = []
+                if o.end != want_end or ("walk" in o.events) != want_walk:
+                    unk = [u[0] for u in o.unknown if u[2] is None]
+                if o.end != want_end or ("walk" in o.events) != want_walk:
                     bad.append(f"value {'missing' if none else 'given'}, required={req}, generator={gen}: {'walked' if 'walk' in o.events else 'not walked'}, {o.end}{' depending on ' + str(unk) if unk else ''}")
         chk.require(not bad, chk.fkey(f, "per-argument decision"), "every argument must be examined: a given value is walked for nested configurations, a missing required value without generator raises, "
                     f"and no other argument ends the loop; found {bad[:3]}", loc)
@@ -421,11 +425,57 @@ def r6_type_resolution(chk: Check):
     chk.require(len(en) == 1, chk.fkey(f, "enum recognised"), "Type.fromType must recognise enumeration classes", loc)
 
 
+def r7_failed_validation_leaves_no_mark(chk: Check):
+    """validate() marks a configuration as validated before it checks it (the mark stops cycles).  Every exceptional exit after the mark
+    must remove it again, or the configuration -- and the missing value in it -- is skipped by the next submit that reaches it"""
+    tree = chk.tree
+    f = tree.func("core.objects", "ConfigInformation.validate")
+    loc = chk.loc(f.module, f.node)
+    # the only reason to skip a configuration is that it carries the mark: no other early exit (e.g. "an equal configuration was seen":
+    # configuration equality ignores values that are not set)
+    g0 = CFG(f.node)
+    for n in g0.live:
+        if n.kind == "stmt" and isinstance(n.ast, ast.Return):
+            gs = [(src(t.ast), pol) for t, pol in g0.guards(n) if t.kind == "test"]
+            extra = [x for x in gs if x != ("self._validated", True)]
+            chk.require(not extra, chk.fkey(f, "skipped only when marked"), f"validate() returns early under {extra}: a configuration that was never examined is treated as valid", chk.loc(f.module, n.ast))
+    marks = [x for x in body_walk(f.node) if isinstance(x, ast.Assign) and src(x.targets[0]).endswith("._validated") and isinstance(x.value, ast.Constant) and x.value.value is True]
+    if not marks:
+        chk.ok(chk.fkey(f, "no persistent validated mark"), loc)
+        return
+
+    def anc(x):
+        p = getattr(x, "_parent", None)
+        while p is not None and p is not f.node:
+            yield p
+            p = getattr(p, "_parent", None)
+
+    def resets(h):
+        has_reset = any(isinstance(y, ast.Assign) and src(y.targets[0]).endswith("._validated") and isinstance(y.value, ast.Constant) and y.value.value is False for y in ast.walk(h))
+        reraises = any(isinstance(y, ast.Raise) and y.exc is None for y in h.body)
+        broad = h.type is None or src(h.type) in ("BaseException", "Exception")
+        return has_reset and reraises and broad
+
+    risky = []
+    for x in body_walk(f.node):
+        if isinstance(x, ast.Raise) and not any(isinstance(a, ast.ExceptHandler) for a in anc(x)):
+            risky.append(x)
+        elif isinstance(x, ast.Call) and (tail(x) in ("validate", "__validate__") or (isinstance(x.func, ast.Name) and x.func.id.startswith("validate"))):
+            risky.append(x)
+    chk.min_instances(len(risky), 3, "raising sites of ConfigInformation.validate")
+    for x in risky:
+        ok = any(isinstance(a, ast.Try) and any(x is y for st in a.body for y in ast.walk(st)) and any(resets(h) for h in a.handlers) for a in anc(x))
+        chk.require(ok, chk.fkey(f, "mark removed when validation fails"),
+                    f"`{src(x)[:60]}` can raise after the configuration was marked as validated and nothing removes the mark: the next task that uses this (sub-)configuration skips "
+                    "its validation, so a missing required value is accepted at submission", chk.loc(f.module, x))
+
+
 RULES = [
     ("R1", "every Type.validate is total: no non-raising path returns None / falls off the end (except None stays None)", r1_validate_total),
     ("R2", "ConfigInformation.set decision table over all 64 assignments of its atoms on an unsealed configuration: stores the *validated* value, raises when sealed / read-only / required-None; nobody else stores into values; Argument.validate returns the coerced value", r2_set_table),
     ("R3", "documented coercions and container validation: integral float -> int, int -> float, str -> Path; every element / key / value validated and the container rebuilt; Union raises when no member accepts", r3_coercions),
     ("R4", "the required-value check reaches the whole graph: direct values, list elements, dict *values*, pre-tasks, init tasks; missing required (not generated) raises", r4_required_reaches_graph),
     ("R6", "declared types are resolved exactly: basic types by the key itself, enumerations recognised", r6_type_resolution),
+    ("R7", "a failed validation leaves no configuration marked as validated: every raising site after the mark is covered by a handler that resets it and re-raises", r7_failed_validation_leaves_no_mark),
     ("R5", "submit validates and seals before anything is registered (= C14.R3)", r5_submit_validates_first),
 ]
